@@ -39,9 +39,9 @@ func (c10) Meta() Meta {
 
 func c10Params(tier string) (nGenQ, nGenT int) {
 	if tier == "thorough" {
-		return 60, 600
+		return 600, 8000
 	}
-	return 60, 600
+	return 600, 8000
 }
 
 func (p c10) NumUnits(tier string, seed int64) int {
